@@ -22,7 +22,7 @@ ITER_CONSUMERS = {
     UPD + "find_reverted_kernels": ("account", "kernels of vanished outputs"),
     UPD + "clean_old_unconfirmed": ("all", "stale unconfirmed coinbase candidates of every account are dropped (height-based, no value moves)"),
     SEL + "repopulate_tx": ("all", "looks records up by the context's own key ids (a key id embeds its account path)"),
-    c.LW + "api_impl::owner::get_stored_tx": ("all", "look-up of a log entry by id to find its slate uuid; reads only"),
+    c.LW + "api_impl::owner::get_stored_tx": ("account", "look-up of a log entry by its (per-account) id to find the stored transaction of that entry: ids repeat across accounts"),
     c.LW + "api_impl::owner::update_txs_via_kernel": ("account", "is a change output of this account still waiting for the entry (C04.R9; added with fix /repo owner.rs update_txs_via_kernel)"),
     c.LW + "internal::scan::cancel_tx_log_entry": ("account", "the other reservations of the entry a scan cancels (released with it)"),
     c.LW + "internal::keys::accounts": ("n/a", ""),
